@@ -324,13 +324,19 @@ def _c06_claims(sink, path, shape, info, rows, lps, lls, kept, ranks, desc, logp
             cl = [z3.Sum([z3.If(k, 1, 0) for k in kept]) == m]
             for j in range(len(rows)):
                 for g in range(m):
+                    if isinstance(lls[j], symnp.NonFinite):
+                        continue       # a -inf sample is never kept
                     cl.append(z3.Implies(z3.And(kept[j], ranks[j] == g),
                                          z3.And(core.lift(obs["ln_likelihood"][g] == lls[j]), core.lift(obs["ln_prior"][g] == lps[j]))))
             sink.check(path, "attached", core.SB(z3.And(cl)), site=shape["mode"], describe=desc, prefer=pref)
     if all_lp:
         al = info["all_ll"]
         ok = isinstance(al, symnp.SymArray) and al.a.shape == (len(lls),)
-        cl = z3.And([core.lift(al.a[j] == lls[j]) for j in range(len(lls))]) if ok else z3.BoolVal(False)
+        def _eq(a, b):
+            if isinstance(a, symnp.NonFinite) or isinstance(b, symnp.NonFinite):
+                return z3.BoolVal(isinstance(a, symnp.NonFinite) and isinstance(b, symnp.NonFinite) and a.kind == b.kind)
+            return core.lift(a == b)
+        cl = z3.And([_eq(al.a[j], lls[j]) for j in range(len(lls))]) if ok else z3.BoolVal(False)
         sink.check(path, "all_logprobs", core.SB(cl), site=shape["mode"], describe=desc, prefer=pref)
 
 
@@ -546,7 +552,7 @@ def _replay_once(cand, focus, shift):
                     elif len(val) != len(want) or not np.allclose(val, want, rtol=1e-12, atol=0):
                         bad.append("%s=%s but the rows' own values are %s" % (name, val.tolist(), want))
             if all_lp:
-                if all_ll is None or len(all_ll) != n_eval or not np.allclose(np.asarray(all_ll, dtype=float), ll_eval, rtol=1e-12, atol=0):
+                if all_ll is None or len(all_ll) != n_eval or not np.allclose(np.asarray(all_ll, dtype=float), ll_eval, rtol=1e-12, atol=0, equal_nan=True):
                     bad.append("all-logprobs array %s != likelihoods in evaluation order %s" % (None if all_ll is None else np.asarray(all_ll).tolist(), ll_eval))
         return {"reproduced": bool(bad), "detail": "; ".join(bad)[:900] or "real build agrees with the rule"}
     finally:
